@@ -32,6 +32,8 @@ SHAPES = [(n,) + t for n in (0, 1, 2, 5)
 FILLFUNCS = {
     'i': lambda i: i, '2i': lambda i: 2 * i, 'i*[1,2]': lambda i: i * [1, 2],
     'i**2%7': lambda i: i ** 2 % 7, 'i+0.5': lambda i: i + 0.5, '(-1)**i': lambda i: (-1) ** i,
+    # leaves the 32-bit range from index 3 on: decides the width of the index grid the function is given
+    'i*10**9': lambda i: i * 1_000_000_000,
 }
 REJECTED = ['bool', 'str', 'bytes', 'object', 'datetime64', 'timedelta64', 'structured', 'longdouble']
 
